@@ -367,6 +367,49 @@ theorem first_block_terminates (g : Graph) (hr : rankedB g = true) (hsym : edgeS
   simp only [List.getD_eq_getElem?_getD, List.getElem?_map, List.getElem?_eq_getElem hw]
   rfl
 
+open I2N.Trav.Term in
+/-- **Every reachable state.**  In every state the scheduler can reach (`ReachableF`: steps of real workers with positive
+fuel, any interleaving, any outcomes) in which no flat node is unexplored, every worker is in a good state: the loop it
+runs next terminates within `bound g` iterations.  The shape of the paths (`Walk`) is an invariant of the traversal
+(`reachable_tinv`); registers and node records are those of the initial state (`hcls`: `ncls` exceeds every class). -/
+theorem reachable_loop_terminates (g : Graph) (d : Nat → Nat) (hr : Ranked g d) (hsym : EdgeSym g) (ncls : Nat)
+    (store : List (String × List (String × String))) (hcls : ∀ n, n < g.nodes.length → (g.node n).cls < ncls)
+    (s : State) (h : ReachableF g ncls store s) (he : Explored g s) (w : Nat) (evs : List Event) (fuel : Nat)
+    (hf : bound g ≤ fuel) : ∃ r, runLoopO g w (bound g) s evs = some r ∧ runLoop g w fuel s evs = r :=
+  runLoop_terminates g d hr hsym w s evs (reachable_good hr hsym hcls h he w) fuel hf
+
+open I2N.Trav.Term in
+/-- **A resumed worker reaches its next suspension, the exit or an exception within `bound g` iterations**, whatever
+the state of the other workers and the outcome of the test it was waiting for (`out`; also "never reported"): the
+scheduler step `resume` — including the continuation after a test execution — is the same for every `fuel ≥ bound g`,
+so the driver's fuel of 100000 never decides anything on graphs with `bound g ≤ 100000`. -/
+theorem resume_within_bound (g : Graph) (d : Nat → Nat) (hr : Ranked g d) (hsym : EdgeSym g) (ncls : Nat)
+    (store : List (String × List (String × String))) (hcls : ∀ n, n < g.nodes.length → (g.node n).cls < ncls)
+    (s : State) (h : ReachableF g ncls store s) (he : Explored g s) (w : Nat) (out : Outcome) (fuel : Nat)
+    (hf : bound g ≤ fuel) : resume g s w out fuel = resume g s w out (bound g) :=
+  resume_fuel g d hr hsym ncls store hcls s h he w out fuel hf
+
+open I2N.Trav.Term in
+/-- the same with decidable hypotheses, for pre-parsed graphs (the only flat node is the shared root) -/
+theorem preparsed_resume_within_bound (g : Graph) (hr : rankedB g = true) (hsym : edgeSymB g = true)
+    (hflat : noFlatB g = true) (ncls : Nat) (hcls : ∀ n, n < g.nodes.length → (g.node n).cls < ncls)
+    (store : List (String × List (String × String))) (s : State) (h : ReachableF g ncls store s) (w : Nat)
+    (out : Outcome) (fuel : Nat) (hf : bound g ≤ fuel) : resume g s w out fuel = resume g s w out (bound g) :=
+  resume_fuel g (depth g) (rankedB_sound hr) (edgeSymB_sound hsym) ncls store hcls s h (explored_of_noFlat hflat s) w out fuel hf
+
+/-- the general statement for lazily expanded graphs, NOT proved: `Explored g s` cannot be dropped from
+`reachable_loop_terminates` as it stands (`unexplored_orphan_spins` below).  What is missing: while flat nodes are
+unexplored the loop postpones cleanups by jumping back to the root without dropping anything; that phase ends because
+the root hands out its flat children fewest-picks-first, so an unexplored child (always a child of the root in parsed
+graphs, pick count 0 in reachable states) is picked after at most one round over the root's flat children and gets
+unrolled by the picking worker.  A proof needs the pick counters in the measure and an invariant about unexplored
+nodes (child of the root, never dropped, never picked); with it the bound would grow by a factor `(#flat + 1)²`.
+Proved instead: the hypothesis is preserved by every iteration (it only becomes "more true": `Explored.mono`) and holds
+for all states of pre-parsed graphs (`explored_of_noFlat`). -/
+theorem loop_terminates_partial (g : Graph) (s s' : State) (h : I2N.Trav.Term.Explored g s)
+    (hh : ∀ x, x ∈ s'.hidden → x ∈ s.hidden) (hi : ∀ x, x ∈ s.incompatible → x ∈ s'.incompatible) :
+    I2N.Trav.Term.Explored g s' := h.mono hh hi
+
 /-! ### non-vacuity and necessity of the hypotheses -/
 
 /-- a diamond of dry-run nodes below the root, one worker -/
@@ -391,6 +434,14 @@ example : (runLoop gDia 0 (I2N.Trav.Term.bound gDia) (initState gDia 5 []) []).2
 example : (match (iterL gDia (initState gDia 5 []) 0).2.2 with | .cont => true | _ => false) = true ∧
     I2N.Trav.Term.phi gDia (initState gDia 5 []) 0 = 261 ∧
     I2N.Trav.Term.phi gDia (iterL gDia (initState gDia 5 []) 0).1 0 = 260 := by decide
+
+/-- a reachable state in the middle of the traversal (the worker of `gTwo` is suspended inside its leaf): the hypotheses
+of `reachable_loop_terminates` / `resume_within_bound` hold -/
+example := preparsed_resume_within_bound gTwo (by decide) (by decide) (by decide) 2 (by decide) [] _
+  (.step _ 0 ⟨none, 0⟩ 9 (.init []) (by decide) (by decide)) 0 ⟨some "PASS", 1⟩ 100000 (by decide)
+example := reachable_loop_terminates gTwo _ (I2N.Trav.Term.rankedB_sound (by decide)) (edgeSymB_sound (by decide)) 2 []
+  (by decide) _ (.step _ 0 ⟨none, 0⟩ 9 (.init []) (by decide) (by decide)) (I2N.Trav.Term.explored_of_noFlat (by decide) _)
+  0 [] 100000 (by decide)
 
 /-- Necessity of acyclicity (model level; real graphs are acyclic by construction): on a graph with a cycle `a ⇄ b`
 the worker pushes parents for ever — the loop does run out of fuel. -/
